@@ -38,7 +38,7 @@ def c_history(e1: int, e2: int, e3: int, e4: int, a1: bool, a2: bool, a3: bool, 
         if LEASE and d.startswith('C08:new-stream-does-not-begin-with-a-request-frame'):
             d = 'C08:lease:frame-overtakes-lease-blocked-request'
         devs.append(d)
-    if o.loop.exc:
+    if o.loop.errors():
         devs.append('loop-exception-handler-called')
     if o.loop.livelock:
         devs.append('livelock')
